@@ -817,9 +817,15 @@ def main(ctx, replay):
     lint = lint_source()
     sync_src, points, inlock, prelock = rewrite_run_go(ctx)
     if sync_src is None:
-        # DESIGN section 7: fail loudly rather than silently not entering the windows
-        raise RuntimeError("no sync point could be placed in reloadConfig (shape of the function changed): adapt props/c18.py rewrite_run_go")
-    hbin, glog = C.go_build_harness(ctx, extra_replace={os.path.join(C.REPO, "internal", "app", "run.go"): sync_src})
+        # DESIGN section 7: fail loudly rather than silently not entering the windows - as a verdict, not as a crash: the part of the
+        # check that forces a reload between two accessors cannot run on this source, so "each request sees one configuration" is no
+        # longer shown; the other parts still run and may produce a concrete failing input
+        _report(ctx, "model-stale:reloadConfig-shape",
+                "no sync point could be placed in reloadConfig (the function no longer has the shape `state.<method>(...)` statements the overlay "
+                "rewriter of props/c18.py instruments): the forced-window part of the check did not run",
+                {"kind": "obligation", "no_failing_input_found": True, "names": "correspondence run.go:reloadConfig <-> Model/Reload.v reload_prog (sync-point overlay)"})
+        points, inlock, prelock = [], False, False
+    hbin, glog = C.go_build_harness(ctx, extra_replace=({os.path.join(C.REPO, "internal", "app", "run.go"): sync_src} if sync_src else None))
     if hbin is None:
         raise RuntimeError("harness build failed:\n" + glog[-3000:])
     info["hbin"] = hbin
@@ -878,132 +884,136 @@ def main(ctx, replay):
                             "fingerprint_lines": r["fp_lines"], "fingerprint_unchanged": r["fp_same"], "limiter_tokens": [r["tokens_before"], r["tokens_after"]]})
     dist["failed_reload_cases_by_kind"] = kinds
 
-    # ------------------------------------------------------------------ (b)
-    scs = vis_scenarios()
-    shards = [scs[i::8] for i in range(8)]
+    if points:
+        # ------------------------------------------------------------------ (b)
+        scs = vis_scenarios()
+        shards = [scs[i::8] for i in range(8)]
 
-    def run_shard(i):
-        rc, out, err = C.harness_run(hbin, ["reload-visibility"], {"dir": os.path.join(ctx.scratch, "v%d" % i), "scenarios": shards[i], "sync_points": len(points), "inlock": inlock, "prelock": prelock})
-        if rc != 0:
-            raise RuntimeError("reload-visibility: " + err[-2000:])
-        return json.loads(out)
-    for i in range(8):
-        os.makedirs(os.path.join(ctx.scratch, "v%d" % i), exist_ok=True)
-    with concurrent.futures.ThreadPoolExecutor(8) as ex:
-        outs = list(ex.map(run_shard, range(8)))
-    sync_avail = any(o["sync_point_available"] for o in outs)
-    inlock_reached = any(o["inlock_point_reached"] for o in outs)
-    n_inlock = n_inlock_progress = n_prelock = 0
-    by_id = {}
-    for o in outs:
-        for s in o["scenarios"]:
-            by_id[s["id"]] = s
-    findings = {}          # key -> list of witnesses
-    shapes, runs = set(), []
-    n_mixed = n_version_mix = n_outcome_mix = n_restart = 0
-    for sc in scs:
-        s = by_id[sc["id"]]
-        if s["setup_error"]:
-            raise RuntimeError("scenario %s: %s" % (sc["id"], s["setup_error"]))
-        if s["needs_restart"]:
-            n_restart += 1
-            continue
-        for rr in s["results"]:
-            rq = sc["requests"][rr["request"]]
-            for m in rr["mixed"]:
-                n_mixed += 1
-                evaluations += 1
-                vers = classify(rr["old"], rr["new"], m)
-                cbs = tuple(c["cb"] for c in m["calls"])
-                mode = "full" if m["mode"].startswith("full") else (m["mode"] if m["mode"] in ("inlock", "prelock") else "window")
-                k = m["position"] if mode == "full" else max(m["position"], 0)
-                if mode == "prelock":
-                    n_prelock += 1
-                if mode == "inlock":
-                    n_inlock += 1
-                    if m["progress"]:
-                        n_inlock_progress += 1
-                shapes.add((cbs, mode, k))
-                runs.append((sc, rq, rr, m, vers, cbs, mode, k))
-    pred, plog = model_predictions(ctx, shapes)
-    if pred is None:
-        raise RuntimeError("model schedules could not be evaluated:\n" + plog[-2000:])
-    vecs = set()
-    for (sc, rq, rr, m, vers, cbs, mode, k) in runs:
-        vecs.add(tuple(int(v) for v in vers if v in "01"))
-    ov = coq_one_version(ctx, vecs)
-    if ov is None:
-        raise RuntimeError("one_version could not be evaluated")
-    corr_mism = []
-    for (sc, rq, rr, m, vers, cbs, mode, k) in runs:
-        per, model_ok = pred[(cbs, mode, k)]
-        # step correspondence: every accessor whose answer identifies a version saw the version the model predicts
-        for cb, v, pv in zip(cbs, vers, per):
-            if v in "01" and len(set(pv)) == 1 and int(v) != pv[0]:
-                corr_mism.append({"scenario": sc["id"], "request": rq, "mode": m["mode"], "callback": cb, "observed": v, "model": pv})
-        obs_ok = ov[tuple(int(v) for v in vers if v in "01")]
-        if not obs_ok:
-            n_version_mix += 1
-        outcome_mix = m["outcome"] not in (rr["old"]["outcome"], rr["new"]["outcome"])
-        if not outcome_mix:
-            continue
-        n_outcome_mix += 1
-        if obs_ok and mode == "full":
-            # an outcome that is neither old nor new although every identifiable read agrees: not explained by the model
-            key = "reload-unexplained-outcome"
-        elif mode == "prelock":
-            key = "reload-early-publish"        # part of the new configuration is live before the reload's critical section
-        elif mode == "inlock":
-            key = "reload-two-lock-window"      # a request was served between the two halves although they share a critical section
-        elif mode == "window":
-            key = "reload-two-lock-window" if (k == 0 and len(points) == 2) else "reload-lock-window:" + points[k]
-        else:
-            xs = [cb for cb, v in list(zip(cbs, vers))[:k] if v == "0"]
-            ys = [cb for cb, v in list(zip(cbs, vers))[k:] if v == "1"]
-            key = "reload-per-request-reads:%s->%s" % (xs[-1] if xs else cbs[k - 1], ys[0] if ys else cbs[min(k, len(cbs) - 1)])
-        wit = {"scenario": sc["id"], "old_config": sc["old"], "new_config": sc["new"], "request": rq,
-               "schedule": ("request runs accessors %s; reloadConfig(new) runs completely before accessor #%d (%s)" % (list(cbs), k + 1, cbs[k] if k < len(cbs) else "-"))
-               if mode == "full" else ("reloadConfig(new) is held at %s; the whole request is issued; then the reload continues" % m["via"]),
-               "accessor_versions": list(zip(cbs, vers)), "outcome": m["outcome"],
-               "outcome_all_old": rr["old"]["outcome"], "outcome_all_new": rr["new"]["outcome"]}
-        findings.setdefault(key, []).append(wit)
-        nontrivial.add((key, sc["id"]))
-    for cm in corr_mism[:5]:
-        _report(ctx, "reload-model-mismatch:" + cm["callback"], "accessor saw version %s, Model/Reload.v predicts %s" % (cm["observed"], cm["model"]),
-                 {"kind": "schedule", "case": cm})
-    WHAT = {
-        "reload-early-publish": "a request served while reloadConfig is still before its critical section (secrets loaded, nothing published yet) is already decided partly under the new configuration",
-        "reload-two-lock-window": "a request served while reloadConfig is between its two critical sections (loadAuth has published the new authenticator/allowlist tables, updateAll has not yet published the new route table, pull mapping and limiters) is decided under a mixture of the old and the new configuration",
-    }
-    for key in sorted(findings):
-        ws = sorted(findings[key], key=lambda w: (len(w["old_config"]) + len(w["new_config"]), json.dumps(w["request"], sort_keys=True)))
-        if key.startswith("reload-per-request-reads:"):
-            a, b = key.split(":", 1)[1].split("->")
-            what = ("a reload that completes between the locked accessors %s and %s of ONE request makes that request use the old configuration in %s and the new one in %s; "
-                    "its outcome is neither the all-old nor the all-new outcome" % (a, b, a, b))
-        else:
-            what = WHAT.get(key, key)
-        _report(ctx, key, what, {"kind": "schedule", "case": ws[0], "witnesses": len(ws), "other_scenarios": sorted({w["scenario"] for w in ws})[:12]})
-    dist.update({"visibility_scenarios": len(scs), "visibility_restart_skipped": n_restart, "mixed_runs": n_mixed,
-                 "runs_with_version_mixture": n_version_mix, "runs_with_observable_mixture": n_outcome_mix,
-                 "distinct_request_shapes_checked_against_model": len(shapes), "sync_points": points, "windows_between_sync_points_entered": sync_avail,
-                 "prelock_point_placed": prelock, "requests_served_while_reload_held_just_before_its_critical_section": n_prelock,
-                 "inlock_point_placed": inlock, "inlock_point_reached": inlock_reached, "requests_issued_while_reload_inside_its_critical_section": n_inlock,
-                 "of_which_got_an_accessor_answer_before_the_reload_left_it": n_inlock_progress,
-                 "mixture_keys": {k: len(v) for k, v in sorted(findings.items())}})
-    if findings:
-        k0 = sorted(findings)[0]
-        samples.append({"part": "b", "key": k0, "witness": {k: v for k, v in findings[k0][0].items() if k not in ("old_config", "new_config")}})
+        def run_shard(i):
+            rc, out, err = C.harness_run(hbin, ["reload-visibility"], {"dir": os.path.join(ctx.scratch, "v%d" % i), "scenarios": shards[i], "sync_points": len(points), "inlock": inlock, "prelock": prelock})
+            if rc != 0:
+                raise RuntimeError("reload-visibility: " + err[-2000:])
+            return json.loads(out)
+        for i in range(8):
+            os.makedirs(os.path.join(ctx.scratch, "v%d" % i), exist_ok=True)
+        with concurrent.futures.ThreadPoolExecutor(8) as ex:
+            outs = list(ex.map(run_shard, range(8)))
+        sync_avail = any(o["sync_point_available"] for o in outs)
+        inlock_reached = any(o["inlock_point_reached"] for o in outs)
+        n_inlock = n_inlock_progress = n_prelock = 0
+        by_id = {}
+        for o in outs:
+            for s in o["scenarios"]:
+                by_id[s["id"]] = s
+        findings = {}          # key -> list of witnesses
+        shapes, runs = set(), []
+        n_mixed = n_version_mix = n_outcome_mix = n_restart = 0
+        for sc in scs:
+            s = by_id[sc["id"]]
+            if s["setup_error"]:
+                raise RuntimeError("scenario %s: %s" % (sc["id"], s["setup_error"]))
+            if s["needs_restart"]:
+                n_restart += 1
+                continue
+            for rr in s["results"]:
+                rq = sc["requests"][rr["request"]]
+                for m in rr["mixed"]:
+                    n_mixed += 1
+                    evaluations += 1
+                    vers = classify(rr["old"], rr["new"], m)
+                    cbs = tuple(c["cb"] for c in m["calls"])
+                    mode = "full" if m["mode"].startswith("full") else (m["mode"] if m["mode"] in ("inlock", "prelock") else "window")
+                    k = m["position"] if mode == "full" else max(m["position"], 0)
+                    if mode == "prelock":
+                        n_prelock += 1
+                    if mode == "inlock":
+                        n_inlock += 1
+                        if m["progress"]:
+                            n_inlock_progress += 1
+                    shapes.add((cbs, mode, k))
+                    runs.append((sc, rq, rr, m, vers, cbs, mode, k))
+        pred, plog = model_predictions(ctx, shapes)
+        if pred is None:
+            raise RuntimeError("model schedules could not be evaluated:\n" + plog[-2000:])
+        vecs = set()
+        for (sc, rq, rr, m, vers, cbs, mode, k) in runs:
+            vecs.add(tuple(int(v) for v in vers if v in "01"))
+        ov = coq_one_version(ctx, vecs)
+        if ov is None:
+            raise RuntimeError("one_version could not be evaluated")
+        corr_mism = []
+        for (sc, rq, rr, m, vers, cbs, mode, k) in runs:
+            per, model_ok = pred[(cbs, mode, k)]
+            # step correspondence: every accessor whose answer identifies a version saw the version the model predicts
+            for cb, v, pv in zip(cbs, vers, per):
+                if v in "01" and len(set(pv)) == 1 and int(v) != pv[0]:
+                    corr_mism.append({"scenario": sc["id"], "request": rq, "mode": m["mode"], "callback": cb, "observed": v, "model": pv})
+            obs_ok = ov[tuple(int(v) for v in vers if v in "01")]
+            if not obs_ok:
+                n_version_mix += 1
+            outcome_mix = m["outcome"] not in (rr["old"]["outcome"], rr["new"]["outcome"])
+            if not outcome_mix:
+                continue
+            n_outcome_mix += 1
+            if obs_ok and mode == "full":
+                # an outcome that is neither old nor new although every identifiable read agrees: not explained by the model
+                key = "reload-unexplained-outcome"
+            elif mode == "prelock":
+                key = "reload-early-publish"        # part of the new configuration is live before the reload's critical section
+            elif mode == "inlock":
+                key = "reload-two-lock-window"      # a request was served between the two halves although they share a critical section
+            elif mode == "window":
+                key = "reload-two-lock-window" if (k == 0 and len(points) == 2) else "reload-lock-window:" + points[k]
+            else:
+                xs = [cb for cb, v in list(zip(cbs, vers))[:k] if v == "0"]
+                ys = [cb for cb, v in list(zip(cbs, vers))[k:] if v == "1"]
+                key = "reload-per-request-reads:%s->%s" % (xs[-1] if xs else cbs[k - 1], ys[0] if ys else cbs[min(k, len(cbs) - 1)])
+            wit = {"scenario": sc["id"], "old_config": sc["old"], "new_config": sc["new"], "request": rq,
+                   "schedule": ("request runs accessors %s; reloadConfig(new) runs completely before accessor #%d (%s)" % (list(cbs), k + 1, cbs[k] if k < len(cbs) else "-"))
+                   if mode == "full" else ("reloadConfig(new) is held at %s; the whole request is issued; then the reload continues" % m["via"]),
+                   "accessor_versions": list(zip(cbs, vers)), "outcome": m["outcome"],
+                   "outcome_all_old": rr["old"]["outcome"], "outcome_all_new": rr["new"]["outcome"]}
+            findings.setdefault(key, []).append(wit)
+            nontrivial.add((key, sc["id"]))
+        for cm in corr_mism[:5]:
+            _report(ctx, "reload-model-mismatch:" + cm["callback"], "accessor saw version %s, Model/Reload.v predicts %s" % (cm["observed"], cm["model"]),
+                     {"kind": "schedule", "case": cm})
+        WHAT = {
+            "reload-early-publish": "a request served while reloadConfig is still before its critical section (secrets loaded, nothing published yet) is already decided partly under the new configuration",
+            "reload-two-lock-window": "a request served while reloadConfig is between its two critical sections (loadAuth has published the new authenticator/allowlist tables, updateAll has not yet published the new route table, pull mapping and limiters) is decided under a mixture of the old and the new configuration",
+        }
+        for key in sorted(findings):
+            ws = sorted(findings[key], key=lambda w: (len(w["old_config"]) + len(w["new_config"]), json.dumps(w["request"], sort_keys=True)))
+            if key.startswith("reload-per-request-reads:"):
+                a, b = key.split(":", 1)[1].split("->")
+                what = ("a reload that completes between the locked accessors %s and %s of ONE request makes that request use the old configuration in %s and the new one in %s; "
+                        "its outcome is neither the all-old nor the all-new outcome" % (a, b, a, b))
+            else:
+                what = WHAT.get(key, key)
+            _report(ctx, key, what, {"kind": "schedule", "case": ws[0], "witnesses": len(ws), "other_scenarios": sorted({w["scenario"] for w in ws})[:12]})
+        dist.update({"visibility_scenarios": len(scs), "visibility_restart_skipped": n_restart, "mixed_runs": n_mixed,
+                     "runs_with_version_mixture": n_version_mix, "runs_with_observable_mixture": n_outcome_mix,
+                     "distinct_request_shapes_checked_against_model": len(shapes), "sync_points": points, "windows_between_sync_points_entered": sync_avail,
+                     "prelock_point_placed": prelock, "requests_served_while_reload_held_just_before_its_critical_section": n_prelock,
+                     "inlock_point_placed": inlock, "inlock_point_reached": inlock_reached, "requests_issued_while_reload_inside_its_critical_section": n_inlock,
+                     "of_which_got_an_accessor_answer_before_the_reload_left_it": n_inlock_progress,
+                     "mixture_keys": {k: len(v) for k, v in sorted(findings.items())}})
+        if findings:
+            k0 = sorted(findings)[0]
+            samples.append({"part": "b", "key": k0, "witness": {k: v for k, v in findings[k0][0].items() if k not in ("old_config", "new_config")}})
 
-    # real goroutine scheduling (evidence only: the mixtures are the known D5 windows, reached without any hook)
-    if ctx.tier != "quick":
-        rc, out, err = C.harness_run(hbin, ["reload-stress"], {
-            "dir": os.path.join(ctx.scratch, "stress"), "old": vis_config(("hmac", None, None)), "new": vis_config(("basic", None, None)),
-            "probe": {"method": "POST", "path": "/a", "body_len": 8}, "workers": 12, "millis": 20000, "old_codes": [401], "new_codes": [401]})
-        if rc != 0:
-            raise RuntimeError("reload-stress: " + err[-2000:])
-        dist["concurrent_stress_hmac_to_basic_unauthenticated_request"] = json.loads(out)
+        # real goroutine scheduling (evidence only: the mixtures are the known D5 windows, reached without any hook)
+        if ctx.tier != "quick":
+            rc, out, err = C.harness_run(hbin, ["reload-stress"], {
+                "dir": os.path.join(ctx.scratch, "stress"), "old": vis_config(("hmac", None, None)), "new": vis_config(("basic", None, None)),
+                "probe": {"method": "POST", "path": "/a", "body_len": 8}, "workers": 12, "millis": 20000, "old_codes": [401], "new_codes": [401]})
+            if rc != 0:
+                raise RuntimeError("reload-stress: " + err[-2000:])
+            dist["concurrent_stress_hmac_to_basic_unauthenticated_request"] = json.loads(out)
 
+    else:
+        dist["part_b_skipped"] = "no sync point could be placed (reported as model-stale)"
+        n_mixed, mres = 0, []
     # ------------------------------------------------------------------ (c)
     fsdir = os.path.join(ctx.scratch, "fs")
     os.makedirs(fsdir, exist_ok=True)
@@ -1257,6 +1267,11 @@ def run_mutations(ctx, hbin, rng):
         mc("post-write-validation-fails", "rolled-back", post_write_fail=True),
         mc("post-write-validation-fails-on-move", "rolled-back", application="app1", endpoint_name="ep1", route="/m2", post_write_fail=True),
         mc("reload-needs-restart", "rolled-back", kind="custom", set_ingress_listen=":18099"),
+        # the operator staged a restart-only edit (its reload was refused: the running configuration is still `base`); a management
+        # mutation on top of the staged file still needs the restart and must not bring the staged content into force
+        mc("mutation-on-staged-restart-only-edit", "rolled-back", staged_file=base.replace('listen   ":18080"', 'listen   ":18097"')),
+        mc("delete-on-staged-restart-only-edit", "rolled-back", kind="delete", application="app1", endpoint_name="ep1",
+           staged_file=base.replace('listen   ":18080"', 'listen   ":18097"')),
         mc("reload-secret-missing", "rolled-back", config=base_env, env_set={"VERIF_C18_M1": "pt-global"}, env_unset=["VERIF_C18_M1"]),
         mc("delete-reload-secret-missing", "rolled-back", kind="delete", application="app1", endpoint_name="ep1", config=base_env,
            env_set={"VERIF_C18_M1": "pt-global"}, env_unset=["VERIF_C18_M1"]),
